@@ -80,6 +80,8 @@ pub struct Compiler {
     scope_index: usize,
     pub filters: Vec<Rc<CompiledFunction>>,
     pub filter_end: Option<Rc<CompiledFunction>>,
+    // line of the first operand that does not fit its bytecode encoding
+    operand_overflow: Option<usize>,
 }
 
 impl Compiler {
@@ -105,6 +107,7 @@ impl Compiler {
             scope_index: 0,
             filters: Vec::new(),
             filter_end: None,
+            operand_overflow: None,
         }
     }
 
@@ -218,7 +221,18 @@ impl Compiler {
     }
 
     // Helper to emit instruction and return its starting position
+    // Remember the first operand that is too large for its encoding; the
+    // program is rejected at the end of compilation instead of being truncated
+    fn check_operands(&mut self, op: Opcode, operands: &[usize], line: usize) {
+        for (&operand, &width) in operands.iter().zip(definitions::operand_widths(op)) {
+            if width < std::mem::size_of::<usize>() && operand >> (8 * width) != 0 {
+                self.operand_overflow.get_or_insert(line);
+            }
+        }
+    }
+
     pub fn emit(&mut self, op: Opcode, operands: &[usize], line: usize) -> usize {
+        self.check_operands(op, operands, line);
         let ins = definitions::make(op, operands, line);
         let pos = self.add_instruction(ins);
         self.set_last_instruction(op, pos);
@@ -307,6 +321,7 @@ impl Compiler {
     fn change_operand(&mut self, op_pos: usize, operand: usize) {
         let op = Opcode::from(self.get_curr_instructions().code[op_pos]);
         let line = self.get_curr_instructions().lines[op_pos];
+        self.check_operands(op, &[operand], line);
         let new_instruction = definitions::make(op, &[operand], line);
         // lines remain the same
         self.replace_instruction(op_pos, &new_instruction.code);
@@ -322,6 +337,12 @@ impl Compiler {
 
     pub fn compile(&mut self, pgm: Program) -> Result<(), CompileError> {
         self.compile_program(pgm)?;
+        if let Some(line) = self.operand_overflow {
+            return Err(CompileError::new(
+                "program too large: an operand does not fit its bytecode encoding",
+                line,
+            ));
+        }
         Ok(())
     }
 
